@@ -71,6 +71,11 @@ def curated():
         "b1": T(next=[dict(when="succeeded", do=["a2", "g3"]), dict(when="failed", do=["a2", "noop"])]),
         "a2": T(next=[dict(do=["o4"])]), "g3": T(next=[dict(when="succeeded", do=["o4"])]),
         "o4": T(join=-1)}, fates={"b1": A, "a2": A, "g3": A, "o4": ["s"]}))
+    out.append(D.wf("join1_two_roots", {
+        "t1": T(next=[dict(when="succeeded", pub=[["x", "res"]], do=["t3"])]),
+        "t2": T(next=[dict(when="succeeded", pub=[["y", "res"]], do=["t3"])]),
+        "t3": T(join=1, next=[dict(when="succeeded", do=["t4"])]), "t4": T()},
+        fates={"t1": ["s"], "t2": A, "t3": A, "t4": ["s"]}))
     out.append(D.wf("fail_branch_parallel", {
         "t1": T(next=[dict(when="succeeded", do=["t3"]), dict(when="failed", do=["t2", "fail"])]),
         "t2": T(), "t3": T(), "t4": T()}, fates={"t1": A, "t2": ["s"], "t3": ["s"], "t4": A}))
@@ -307,6 +312,19 @@ def curated_ctx():
         "t2": T(),
         "t3": T(next=[dict(pub=[["z", "res"]], do=["t4"])]),
         "t4": T()}, output=[["oz", "ctx:z"]], fates={"t1": ["s"], "t2": ["s", "f"], "t3": ["s"], "t4": ["s", "f"]}))
+    out.append(D.wf("join_then_sibling", {
+        "t1": T(next=[dict(pub=[["a", "res"]], do=["t2"])]),
+        "t2": T(next=[dict(do=["t3", "t4"])]),
+        "t5": T(next=[dict(do=["t3"])]),
+        "t3": T(join=-1),
+        "t4": T(next=[dict(pub=[["b", "ctx:v"]], do=["t6"])]), "t6": T()},
+        vars=[["v", 7], ["a", 0]], output=[["ob", "ctx:b"], ["ov", "ctx:v"]]))
+    # a leaf whose only transition is a failure handler: its context must reach the output whatever the order
+    out.append(D.wf("leaf_unsatisfied", {
+        "t1": T(next=[dict(pub=[["x", "res"]], do=["t2"])]),
+        "t2": T(next=[dict(when="failed", do=["noop"])]),
+        "t3": T(next=[dict(pub=[["y", "res"]], do=["t4"])]),
+        "t4": T()}, output=[["ox", "ctx:x"], ["oy", "ctx:y"]]))
     out.append(D.wf("no_leak", {
         "t1": T(next=[dict(when="succeeded", pub=[["x", "res"]], do=["t2"]), dict(when="succeeded", pub=[["y", "res"]], do=["t3"])]),
         "t2": T(next=[dict(pub=[["z", "ctx:x"]], do=["t4"])]),
